@@ -5,6 +5,9 @@
 //!    compared bit for bit with the inputs, `list` / `info` / `tree` output with the library's view.
 //!  * `subcmd` (clause ii): every sub-command template of every format family x every seed of
 //!    that family x every damage class; judged only by the sound, uniform rules of DESIGN.md C20.
+//!  * `rebuildenc`, `blpdims` (clause ii on valid inputs with a particular feature): `mpq rebuild` x
+//!    every option over sources with encrypted members; `blp validate [--strict]` x width x height.
+mod optspaces;
 mod oracle;
 mod run;
 mod seeds;
@@ -535,6 +538,8 @@ fn build(name: &str, _arg: &str, tier: Tier) -> Box<dyn Space> {
         "manyfiles" => Box::new(RoundTrip::many(tier)),
         "listfilter" => Box::new(ListFilter::new(tier)),
         "subcmd" => Box::new(subcmd::SubCmd::new(tier)),
+        "rebuildenc" => Box::new(optspaces::RebuildEnc::new(tier)),
+        "blpdims" => Box::new(optspaces::BlpDims::new(tier)),
         _ => panic!("space {name}"),
     }
 }
@@ -603,11 +608,15 @@ fn main() {
     }
     let Mode::Supervisor(mut c) = start("C20", "exploration", build) else { return };
     let tier = c.tier;
+    let renc = optspaces::RebuildEnc::new(tier);
+    let bdims = optspaces::BlpDims::new(tier);
     c.rule = format!(
         "space roundtrip (clause i): FULL PRODUCT file set ({nsets}: one / three / twelve sizes 1..20000 / with empty file / with 70 KiB file / names with spaces{more_sets}) x create --version {{v1..v4}} x --compression {{none,zlib,bzip2,lzma}} x --with-listfile {{off,on}} x extract selection {{all, explicit names (every other member), explicit names incl. one missing}} x --skip-errors {{off,on}}; inside each case --threads {threads} x --preserve-paths {{off,on}} (one `mpq extract` process each), the same selection once more through `--patch` with a second archive holding one more member (x preserve-paths), and for selection=all/skip=off also `mpq list`, `mpq info`, `mpq tree` compared with the library's list()/get_info(). \
          space manyfiles (clause i): the same round trip on archives of {many} small files (1..61 bytes each), the member counts at which the tool and the library change extraction strategy (batch size 10 / 25 / computed, batched extraction above 1000 names), {many_axes}; explicit selection names every member. \
          space listfilter (clause i, list agrees with the library): `mpq list --filter P` on a library-built archive of 14 names (every order of three tokens, two spellings) for every pattern made of 1..3 tokens with `*` in the gaps and at the ends; printed names must equal the library's names that match P (`*` = any run, case-insensitive, whole name; no `*` = substring). \
          space subcmd (clause ii): EVERY (sub-command template x seed of its input family x damage class): {ntpl} templates over mpq/dbc/dbd/blp/m2(+skin,anim)/wmo/adt/wdt/wdl (every sub-command found with --help at every level, convert over all target versions), seeds from each crate's own writer/builder, damage classes {dmg}. \
+         space rebuildenc (clause ii, exit 0 => complete output, on sources the damage classes cannot produce): FULL PRODUCT `mpq rebuild SRC DST` option variant ({nvar}: {vars}) x member layout ({nlay}: {lays}; members stored plain / ENCRYPTED / ENCRYPTED with the position-adjusted key (FIX_KEY), single-unit and multi-sector) x source version {{v1..v4}} x {rots}; sources written by wow_mpq::ArchiveBuilder with a listfile, one `mpq rebuild` process per case; a case only starts when the library reads every member of the source back and sees the ENCRYPTED flag on exactly the requested members. Rule R6: exit 0 => the library opens the target and reads from it, bit-identical, every source file that the given options do not explicitly exclude (only --skip-encrypted excludes, and only encrypted files); presence of excluded files and a non-zero exit are not judged. \
+         space blpdims (clause ii, failed validation => non-zero exit): FULL PRODUCT width {{1,2,3,6,48,64,100,128,256}} x height (same ladder) x mipmaps {bmips} x format {bfmts}; textures written by wow_blp::convert::image_to_blp + save_blp, inside each case `blp validate --strict` and `blp validate` (one process each), judged against the library's load_blp view of the header. Rule R7 (the tool's own documented rules): --strict and width or height not a power of two => exit != 0; DXT content with a side that is not a multiple of 4 => exit != 0 in both modes; both sides powers of two and none of the documented error rules applicable => exit 0 in both modes; exit 0 => no failure marker in its own output; the exit status of the lenient run on a non-power-of-two texture (documented as a warning) is observed, not judged. \
          Rules applied (and nothing else): R1 nonexistent/empty/garbage/truncated-below-8-bytes input => exit != 0; R2 validate/convert/export/extract/rebuild exit 0 => the library's own parse of the same bytes is Ok; R3 validate exit 0 => the library-level validation it wraps reports no error, and its own output carries no failure marker; R4 exit 0 with an output argument (and no 'No conversion needed'/'Preview mode'/'Dry run' statement) => output exists, is non-empty and the library parser for its format accepts it; R5 mpq extract / rebuild exit 0 (without --skip-errors) => every member the library lists is present and, where the library can read it, bit-identical. \
          A case is non-trivial when the tool was actually started on the prepared input and ended with an exit status; distinct by (template, seed, damage) resp. by the axis tuple.",
         nsets = filesets(tier).len(),
@@ -617,22 +626,34 @@ fn main() {
         threads = tier.pick("{1,8}", "{1,2,8,default}"),
         ntpl = subcmd::templates().len(),
         dmg = subcmd::damage_names(tier).join(", "),
+        nvar = renc.variant_labels().len(),
+        vars = renc.variant_labels().join(" / "),
+        nlay = renc.layout_names().len(),
+        lays = renc.layout_names().join(" / "),
+        rots = tier.pick("per-member source compression none/zlib alternating", "per-member source compression cycling none/zlib/bzip2 in all 3 rotations"),
+        bmips = tier.pick("{off}", "{off,on}"),
+        bfmts = tier.pick("{blp2 raw3}", "{blp2 raw3, blp1 raw1, blp2 raw1, blp1 jpeg, blp2 dxt1, blp2 dxt5}"),
     );
     c.assume(format!("tool under test: {} (dev profile, built from /repo's working tree by ./check); every process runs with cwd, HOME, XDG_* and TMPDIR inside a vcore::Scratch directory, a per-process timeout (20 s in subcmd, 60 s in roundtrip), RLIMIT_AS 8 GiB, MALLOC_ARENA_MAX=2", cli.display()));
     c.assume("the library's view (list(), get_info(), parse, validate) is taken in-process from the same /repo tree and only on bytes the tool itself exited 0 on; library correctness is the subject of C01-C18, here only agreement between tool and library is judged");
-    c.assume("a non-zero exit where success was possible is a refusal (counted in error_returns), never a violation; timeouts and deaths by signal count as non-zero exits");
+    c.assume("a non-zero exit where success was possible is a refusal (counted in error_returns), never a violation; timeouts and deaths by signal count as non-zero exits. The one exception is `blp validate` in space blpdims, whose exit status is its answer: a non-zero exit on a texture that none of its documented rules rejects is a false statement, not a refusal");
+    c.assume("rebuildenc / blpdims: the input files come from the library's own writers (wow_mpq::ArchiveBuilder, wow_blp image_to_blp + save_blp); a writer refusal or a source the library cannot read back makes the case trivial (counted, not judged): writer correctness is the subject of C01-C03 / C13");
     c.run_space("roundtrip", "");
     c.run_space("manyfiles", "");
     c.run_space("listfilter", "");
     c.run_space("subcmd", "");
+    c.run_space("rebuildenc", "");
+    c.run_space("blpdims", "");
     let sets = filesets(tier);
     c.extra_cov.insert(
         "axes".into(),
         json!({
             "roundtrip": {"file_sets": sets.len(), "versions": 4, "compressions": 4, "listfile": 2, "selections": 3, "skip_errors": 2, "threads_inner": tier.pick(2, 4), "preserve_paths_inner": 2},
             "subcmd": subcmd::axes(tier),
+            "rebuildenc": renc.axes(),
+            "blpdims": bdims.axes(),
         }),
     );
-    c.extra_cov.insert("completed_deviation_bound".into(), json!("full product in both spaces"));
+    c.extra_cov.insert("completed_deviation_bound".into(), json!("full product in every space"));
     c.finish();
 }
